@@ -311,6 +311,30 @@ def m_is_none(I, st, call):
     return [(s, boolv((vi == 0) == want_none)) for s, vi, p in sp]
 
 
+@model("core::option::Option::<T>::zip")
+def m_opt_zip(I, st, call):
+    """Some((a, b)) exactly when both are Some"""
+    sa = split_variants(I, st, call.args[0], call.arg_tys[0])
+    if sa is None:
+        return None
+    out = []
+    for s, vi, p in sa:
+        if vi == 0:
+            out.append((s, mk_none(call.dest_ty)))
+            continue
+        sb = split_variants(I, s, call.args[1], call.arg_tys[1])
+        if sb is None:
+            return None
+        for s2, vj, q in sb:
+            if vj == 0:
+                out.append((s2, mk_none(call.dest_ty)))
+            else:
+                a = p.fields[0] if isinstance(p, StructV) and p.fields else TopV(None)
+                b = q.fields[0] if isinstance(q, StructV) and q.fields else TopV(None)
+                out.append((s2, mk_option(I, StructV([a, b]), call.dest_ty)))
+    return out
+
+
 @model("core::result::Result::<T, E>::is_ok", "core::result::Result::<T, E>::is_err")
 def m_is_ok(I, st, call):
     want_ok = call.path.endswith("is_ok")
